@@ -533,19 +533,20 @@ impl<'c, 'a> VisitMut for Numberer<'c, 'a> {
 struct AnchorFinder<'x> {
     anchor: &'x str,
     block_no: usize,
-    cands: Vec<(usize, usize, usize)>, // (len, block_no, idx)
+    cands: Vec<(usize, usize)>, // (block_no, idx) of innermost statements containing the anchor, in source order
 }
 impl<'x> VisitMut for AnchorFinder<'x> {
     fn visit_block_mut(&mut self, b: &mut Block) {
         let me = self.block_no;
         self.block_no += 1;
-        for (i, s) in b.stmts.iter().enumerate() {
+        for (i, s) in b.stmts.iter_mut().enumerate() {
+            let before = self.cands.len();
             let t = stmt_text(s);
-            if t.contains(self.anchor) {
-                self.cands.push((t.len(), me, i));
+            self.visit_stmt_mut(s);
+            if self.cands.len() == before && t.contains(self.anchor) {
+                self.cands.push((me, i));
             }
         }
-        visit_mut::visit_block_mut(self, b);
     }
 }
 struct AnchorInserter {
@@ -587,11 +588,14 @@ impl VisitMut for AnchorInserter {
                     let is_assign = matches!(e, Expr::Assign(_)) || matches!(e, Expr::Binary(bx) if matches!(bx.op,
                         syn::BinOp::AddAssign(_) | syn::BinOp::SubAssign(_) | syn::BinOp::MulAssign(_) | syn::BinOp::DivAssign(_) |
                         syn::BinOp::BitOrAssign(_) | syn::BinOp::BitAndAssign(_) | syn::BinOp::BitXorAssign(_) | syn::BinOp::ShlAssign(_) | syn::BinOp::ShrAssign(_) | syn::BinOp::RemAssign(_)));
-                    if !is_assign {
+                    let is_unit_block = matches!(e, Expr::While(_) | Expr::ForLoop(_)) || matches!(e, Expr::If(i) if i.else_branch.is_none());
+                    if !is_assign && !is_unit_block {
                         return;
                     }
-                    let e2 = e.clone();
-                    b.stmts[self.idx] = Stmt::Expr(e2, Some(Default::default()));
+                    if is_assign {
+                        let e2 = e.clone();
+                        b.stmts[self.idx] = Stmt::Expr(e2, Some(Default::default()));
+                    }
                 }
             }
             b.stmts.insert(at, self.marker.clone());
@@ -634,12 +638,10 @@ fn insert_anchor(block: &mut Block, id: &str, place: &str, anchor: &str, nth: us
             if f.cands.is_empty() {
                 return Err(format!("lost anchor: no statement contains `{}` (proof {})", anchor, id));
             }
-            let minlen = f.cands.iter().map(|c| c.0).min().unwrap();
-            let mins: Vec<_> = f.cands.iter().filter(|c| c.0 == minlen).collect();
-            if nth >= mins.len() {
-                return Err(format!("lost anchor: `{}` has {} minimal matches, wanted #{}", anchor, mins.len(), nth));
+            if nth >= f.cands.len() {
+                return Err(format!("lost anchor: `{}` has {} innermost matches, wanted #{}", anchor, f.cands.len(), nth));
             }
-            let (_, bno, idx) = *mins[nth];
+            let (bno, idx) = f.cands[nth];
             let mut ins = AnchorInserter { target_block: bno, idx, after: place == "after", scrut: place == "scrut", marker, block_no: 0, done: false };
             ins.visit_block_mut(block);
             if !ins.done {
